@@ -862,8 +862,9 @@ class ExcelCompiler:
                     for row in cell_range.addresses
                 )
             else:
-                # CSE Array Formula
-                data = self.eval(cell_range, cell_range.address)
+                # CSE Array Formula, an empty result shows as 0 in every cell
+                data = tuple(tuple(0 if value is None else value for value in row)
+                             for row in self.eval(cell_range, cell_range.address))
             self.log.info(f"Range {cell_range.address} evaluated to '{data}'")
 
             cell_range.value = data
